@@ -71,6 +71,19 @@ func contains(ss []string, x string) bool {
 }
 
 func runC13(w *W) {
+	// the 72 phenological names are 72 different names (a table with a repeated entry maps two pentads onto one name)
+	{
+		seen := map[string]int{}
+		for i, n := range LunarUtil.WU_HOU {
+			if k, dup := seen[n]; dup || n == "" {
+				w.Viol(fmt.Sprintf("C13:WU_HOU:duplicate:%d", i), fmt.Sprintf("phenological name table: entry %d %q repeats entry %d (or is empty)", i, n, k), i)
+			}
+			seen[n] = i
+		}
+		if len(LunarUtil.WU_HOU) != 72 {
+			w.Viol("C13:WU_HOU:len", fmt.Sprintf("phenological name table has %d entries, not 72", len(LunarUtil.WU_HOU)), nil)
+		}
+	}
 	perturbCache = true
 	walkLunar = true
 	var pFu *calendar.Fu
